@@ -99,7 +99,7 @@ RULE = ('cell enumeration: constness sources (const global, element of a const a
         '++/-- pre and post, inline-if lvalue with the const branch first / second, chained assignment, assignment and '
         'pre-increment results as lvalues, reference argument of a function, also through an inline-if), in update labels and in '
         'function bodies; whole-object writes (const array / struct / element assignment, array and struct reference arguments); '
-        'reference arguments of template instantiations; forall/exists/sum binders (rejection half only: no context permits a '
+        'reference arguments of template instantiations and of spawn T(..) of a dynamic template (the reference parameter first, last, alone); forall/exists/sum binders (rejection half only: no context permits a '
         'write there). Twin: the same operation on a mutable object of the same type and scope. Oracle: the write to the '
         'constant is rejected (>= 1 error), the twin is accepted (no error). A stride of the cells (quick: every 9th, thorough: every 2nd) is additionally spliced into larger generated models (hosts from gen_model.py with all identifiers renamed) and judged the same way. Non-trivial: every cell; distinct = (source, form, host).')
 
@@ -136,6 +136,15 @@ def build_cells():
         out.append((sname, 'ref-argument-template-instantiation', mk(wa), mk(ra)))
         mk2 = lambda a: cells.model(gdecl=BASE, extra_templates=tmpl, system='Q = R(%s); system P, Q;' % a)
         out.append((sname, 'ref-argument-template-instantiation-in-system-block', mk2(wa), mk2(ra)))
+    # the dynamic way to instantiate a template: spawn T(args); the reference parameter first, last, and as the only one
+    for sname, wa, ra, ptext in instantiation_cells():
+        if ptext != 'int &r':
+            continue      # parameters of dynamic templates are integers or booleans (the library says so)
+        for style, dparams, args in (('only', ptext, '%s'), ('last-of-two', 'int a0, ' + ptext, '1, %s'), ('first-of-two', ptext + ', int a1', '%s, 1')):
+            dtmpl = ('<template><name>DC</name><parameter>%s</parameter><declaration></declaration><location id="d0"><name>D0</name></location>'
+                     '<init ref="d0"/></template>') % dparams.replace('&', '&amp;')
+            mk3 = lambda a: cells.model(gdecl=BASE + 'dynamic DC(%s); ' % dparams, extra_templates=dtmpl, assign='spawn DC(%s)' % (args % a))
+            out.append((sname, 'ref-argument-spawn:' + style, mk3(wa), mk3(ra)))
     gq = BASE + 'int wrq(int &r) { r = 1; return 0; } '
     for sname, fname, expr in quantifier_cells():
         out.append((sname, fname + '@function', cells.model(gdecl=gq + 'bool hq() { return %s; } ' % expr), None))
